@@ -37,6 +37,38 @@ type purity struct {
 	memo    map[*ssa.Function]string
 	ctor    bool
 	visited map[*ssa.Function]bool
+	// ownRecv: the top-level function is a method that nothing calls implicitly (not String / Error / Format /
+	// Algorithm / a marshaller ...): it may modify what its own receiver reaches — only a caller who asks for it gets it
+	ownRecv *ssa.Function
+}
+
+// implicitMethods are called by the runtime or the standard library without the user writing the call.
+var implicitMethods = map[string]bool{"String": true, "Error": true, "GoString": true, "Format": true, "Algorithm": true, "Unwrap": true, "Is": true, "As": true,
+	"MarshalJSON": true, "UnmarshalJSON": true, "MarshalText": true, "UnmarshalText": true, "MarshalBinary": true, "UnmarshalBinary": true,
+	"Write": true, "Read": true, "WriteTo": true, "ReadFrom": true, "Len": true, "Less": true, "Swap": true, "Scan": true, "Close": true}
+
+// recvRoot: the address lies in memory reached from the receiver of fn.
+func recvRoot(fn *ssa.Function, v ssa.Value) bool {
+	if fn == nil || fn.Signature.Recv() == nil || len(fn.Params) == 0 {
+		return false
+	}
+	for i := 0; i < 32; i++ {
+		switch a := v.(type) {
+		case *ssa.Parameter:
+			return a == fn.Params[0]
+		case *ssa.FieldAddr:
+			v = a.X
+		case *ssa.IndexAddr:
+			v = a.X
+		case *ssa.Slice:
+			v = a.X
+		case *ssa.UnOp:
+			v = a.X
+		default:
+			return false
+		}
+	}
+	return false
 }
 
 // localRoot follows an address back to what it points into; ok means a fresh allocation of this function.
@@ -117,7 +149,7 @@ func (p *purity) impure(fn *ssa.Function, depth int) string {
 					if _, isG := in.Addr.(*ssa.Global); isG {
 						return "writes the package-level variable " + in.Addr.Name()
 					}
-					if !localRoot(in.Addr) {
+					if !localRoot(in.Addr) && !(fn == p.ownRecv && recvRoot(fn, in.Addr)) {
 						return fmt.Sprintf("stores through %s, which is not a fresh allocation of this function", in.Addr.Name())
 					}
 				case *ssa.MapUpdate:
@@ -409,6 +441,9 @@ func (V *Verifier) AuxCheck(pkgPath string, props []string) []*Obligation {
 		}
 		pu := &purity{V: V, memo: map[*ssa.Function]string{}, visited: map[*ssa.Function]bool{}}
 		pu.ctor = f.Signature.Recv() == nil && strings.HasPrefix(f.Name(), "New") && f.Signature.Params().Len() == 0
+		if f.Signature.Recv() != nil && !implicitMethods[f.Name()] {
+			pu.ownRecv = f
+		}
 		r := pu.impure(f, 0)
 		what := "a function without contract and without verified caller has no effect on messages, buffers or package-level state"
 		if pu.ctor {
